@@ -9,6 +9,9 @@ CONSTANTS
   MaxEvents = 10
   MaxDeliver = 1000
   MaxReinit = 1000
+  EXPECTED = {1}
+  MaxBuf = 0
+  InitOrder = "snapshot-first"
   MaxLen = 30
 INVARIANT Emit
 CHECK_DEADLOCK FALSE
